@@ -2,7 +2,7 @@
    stable solution (equations, leastness, uniqueness). *)
 From Coq Require Import List ZArith Bool Arith Lia.
 From TM Require Import Lib.ListX Util.IntSet Util.IntSet_proofs Util.Graph Util.Graph_proofs Util.GraphSpec
-  Util.GraphSpec_proofs Util.Closure Util.ClosureSem Util.Closure_proofs Util.Closure_proofs2 Util.Closure_proofs3.
+  Util.GraphSpec_proofs Util.Closure Util.ClosureCert Util.ClosureSem Util.Closure_proofs Util.Closure_proofs2 Util.Closure_proofs3.
 Import ListNotations.
 
 (* the complement node u of the list l sees its operand on the stack *)
@@ -273,3 +273,27 @@ Proof.
   - apply andb_true_iff in Hk as [He Hk]. split; [now apply is_empty_den|].
     destruct (n_edges (nd nodes v)) as [|w [|? ?]]; try discriminate. now exists w.
 Qed.
+
+Lemma closure_certb_sound nodes : closure_certb nodes = true ->
+  nodes_wf nodes /\ tarjan_cert (closure_graph nodes) (tarjan (closure_graph nodes)).
+Proof.
+  unfold closure_certb. rewrite !andb_true_iff. intros [[H1 H2] H3].
+  split; [now apply nodes_wfb_sound|now apply tarjan_cert_of_checks].
+Qed.
+
+(* the theorems with the executable certificate as the only side condition *)
+Theorem compute_ok_least nodes : closure_certb nodes = true ->
+  c_oof (compute nodes) = false -> c_err (compute nodes) = [] ->
+  stable_solution nodes (sol_of (compute nodes)) /\
+  (forall sol, stable_solution nodes sol -> forall v x, v < length nodes -> (sol v x <-> sol_of (compute nodes) v x)).
+Proof.
+  intros Hc Hoof Herr. destruct (closure_certb_sound nodes Hc) as [Hwf Hcert].
+  assert (Hnc : forall v, ~ compl_on_cycle nodes v).
+  { intros v Hv. apply (compute_errors_exact nodes Hwf Hcert) in Hv. rewrite Herr in Hv. exact Hv. }
+  destruct (compute_least_solution nodes Hwf Hcert Hnc Hoof) as [_ [_ Hs]]. split; [exact Hs|].
+  intros sol Hsol. exact (stable_unique nodes _ sol _ Hwf Hcert Hnc Hsol Hs).
+Qed.
+
+Theorem compute_err_cycle nodes : closure_certb nodes = true ->
+  forall u, In u (c_err (compute nodes)) <-> compl_on_cycle nodes u.
+Proof. intro Hc. destruct (closure_certb_sound nodes Hc) as [Hwf Hcert]. now apply compute_errors_exact. Qed.
